@@ -40,6 +40,7 @@ type symEntry struct {
 	Sig     string   `json:"sig"`             // type string, module type names package-qualified
 	Members []string `json:"members,omitempty"`
 	Index   int      `json:"index,omitempty"` // field position
+	Shape   string   `json:"shape,omitempty"` // types only: the ordered field types of a struct
 	Configs []string `json:"configs,omitempty"`
 }
 
@@ -91,6 +92,7 @@ func collectSymbols(pkgs map[string]*packages.Package) (symTable, map[string]typ
 					e.Sig = "struct"
 					for i := 0; i < u.NumFields(); i++ {
 						f := u.Field(i)
+						e.Shape += types.TypeString(f.Type(), qualifier) + ";"
 						e.Members = append(e.Members, "."+f.Name())
 						fk := path + "|" + name + "." + f.Name()
 						tab[fk] = &symEntry{Kind: "field", Owner: name, Sig: types.TypeString(f.Type(), qualifier), Index: i}
@@ -266,6 +268,23 @@ func detectRenames(ref symTable, cfg string, cur symTable, objs map[string]types
 				continue
 			}
 			s := jaccard(ref[mk].Members, cur[fk].Members)
+			if ref[mk].Shape != "" && ref[mk].Shape == cur[fk].Shape && s < 0.9 {
+				// the same fields in the same order under other names: judged by the methods alone
+				var rm, cm []string
+				for _, m := range ref[mk].Members {
+					if !strings.HasPrefix(m, ".") {
+						rm = append(rm, m)
+					}
+				}
+				for _, m := range cur[fk].Members {
+					if !strings.HasPrefix(m, ".") {
+						cm = append(cm, m)
+					}
+				}
+				if ms := jaccard(rm, cm); ms >= 0.5 {
+					s = 0.9
+				}
+			}
 			if cur[fk].Sig == ref[mk].Sig && len(ref[mk].Members) == 0 && len(cur[fk].Members) == 0 {
 				s = 1
 			}
